@@ -500,7 +500,103 @@ def _sample(case):
             'positions': case['positions'][:4]}
 
 
+# ---------------------------------------------------------------------------
+# a resource far larger than SQLite's page cache: what was written to the file before the
+# failure must be rolled back as well
+
+def _big_lexicon(n: int, dangling: bool) -> dict:
+    entries, synsets = [], []
+    for i in range(n):
+        sense = {'id': f'big-e{i}-s', 'synset': f'big-ss{i}', 'meta': None}
+        entries.append({'id': f'big-e{i}', 'meta': None,
+                        'lemma': {'writtenForm': f'word {i}', 'partOfSpeech': 'n'},
+                        'senses': [sense]})
+        synsets.append({'id': f'big-ss{i}', 'ili': '', 'partOfSpeech': 'n', 'meta': None,
+                        'definitions': [{'text': f'definition number {i} ' * 3, 'meta': None}]})
+    if dangling:    # the very last relation points nowhere: the add fails at its end
+        entries[-1]['senses'][0]['relations'] = [
+            {'target': 'big-no-such-sense', 'relType': 'antonym', 'meta': None}]
+    return {'id': 'big', 'version': '1', 'label': 'big', 'language': 'en', 'email': 'e',
+            'license': 'l', 'meta': None, 'entries': entries, 'synsets': synsets}
+
+
+def _large_enum(tier, shard, nshards):
+    sizes = [8000, 12000, 8000, 12000] if tier == 'quick' else \
+        [8000, 12000, 20000, 30000, 8000, 12000, 20000, 30000]
+    for i, n in enumerate(sizes):
+        if i % nshards == shard:
+            yield {'n': n, 'fault': 'dangling-relation' if i < len(sizes) // 2
+                   else 'progress-late'}
+
+
+def _large_classify(case):
+    return True, ['large:' + case['fault'], f'entries:{case["n"]}']
+
+
+def _large_oracle(case):
+    import wn
+    from wn.util import ProgressHandler
+    out: list[Disc] = []
+    db = env.fresh_db()
+    small = {'lmf_version': '1.1', 'lexicons': [
+        {'id': 'small', 'version': '1', 'label': 's', 'language': 'en', 'email': 'e',
+         'license': 'l', 'meta': None,
+         'synsets': [{'id': 'small-ss0', 'ili': 'i1', 'partOfSpeech': 'n', 'meta': None}]}]}
+    wn.add_lexical_resource(small, progress_handler=None)
+    before = dumps.raw_dump(db.file)
+    n = case['n']
+    calls = {'n': 0}
+
+    class Late(ProgressHandler):
+        def update(self, n_=1, force=False):
+            calls['n'] += n_
+            if calls['n'] > 2.5 * n:          # entries, senses and synsets are in by then
+                raise Injected('late')
+
+    bad = {'lmf_version': '1.1',
+           'lexicons': [_big_lexicon(n, dangling=case['fault'] == 'dangling-relation')]}
+    raised = None
+    try:
+        wn.add_lexical_resource(bad, progress_handler=Late if case['fault'] == 'progress-late'
+                                else None)
+    except (Injected, wn.Error, sqlite3.Error) as e:
+        raised = e
+    if raised is None:
+        raise env.HarnessError('the large add was meant to fail')
+    label = f'{case["fault"]} n={n}'
+    try:
+        after = dumps.raw_dump(db.file)
+        problems = dumps.audit(db.file)
+    except sqlite3.DatabaseError as e:
+        return [Disc('database-unreadable-after-failed-operation', label, 'unchanged database',
+                     f'{type(e).__name__}: {e}')]
+    d = diff(before, after, limit=4)
+    if d:
+        out.append(Disc('database-changed-by-failed-operation', label,
+                        [x[1] for x in d], [(x[0], x[2]) for x in d]))
+    if problems:
+        out.append(Disc('audit-after-failure', label, [], problems[:5]))
+    if out:
+        return out
+    # the library stays usable: the valid variant is added completely
+    try:
+        wn.add_lexical_resource({'lmf_version': '1.1', 'lexicons': [_big_lexicon(n, False)]},
+                                progress_handler=None)
+        w = wn.Wordnet('big:1')
+        got = [len(w.words()), len(w.senses()), len(w.synsets())]
+    except Exception as e:  # noqa: BLE001
+        return [Disc('valid-operation-fails-after-failure', label, 'success',
+                     f'{type(e).__name__}: {e}')]
+    if got != [n, n, n]:
+        out.append(Disc('result-after-failure-differs', label, [n, n, n], got))
+    return out
+
+
 SUBS = [
+    Sub('large-resource', _large_oracle, _large_classify, enumerate=_large_enum,
+        exhaustive_note='fixed sizes (8000-30000 entries, several MB of rows: beyond the page '
+                        'cache), failure at the very end of the add',
+        sample=lambda c: c, purge_every=1, case_timeout=600),
     Sub('faults-sampled', oracle, _classify,
         strategy=lambda tier: _cases(), budget={'quick': 25, 'thorough': 10},
         fingerprint=_fp, sample=_sample, purge_every=1,
